@@ -18,6 +18,7 @@ Directives (one per line, all start with `//@`):
   //@map? <regex> => <replacement>       same, but not an error when nothing matches
   //@sigmap <regex> => <replacement>     substitution on the signature only (logged)
   //@norule <D1|D2|D3|D5|R1|N1|N2|N3>    disable a rule for this function
+  //@rule N8                             enable an opt-in rule for this function
   //@arms keep=<regex>                   rule A: keep only match arms whose pattern matches
   //@requires                            followed by `//@   <expr>,` lines
   //@ensures                             followed by `//@   [<obligation name>] <expr>,` lines
@@ -1252,7 +1253,7 @@ class Gen:
         rel, name = kv["file"], kv["fn"]
         src = self.src(rel)
         loc = find_fn(src, name, kv.get("impl"), int(kv.get("nth", "0")))
-        enabled = set(ALL_RULES)
+        enabled = set(ALL_RULES) - {"N8"}   # N8 (Option::map) is opt-in: `.map` also exists on Result/iterators
         maps, sigmaps, arms, cut = [], [], None, None
         requires, ensures = [], []
         loops = {}     # n -> dict(invariant=[(name,text)], decreases=[text], ensures=[])
@@ -1276,6 +1277,9 @@ class Gen:
                 mode = None
             elif bs.startswith("norule "):
                 enabled.discard(bs.split()[1])
+                mode = None
+            elif bs.startswith("rule "):
+                enabled.add(bs.split()[1])
                 mode = None
             elif bs.startswith("arms "):
                 arms = parse_kv(bs[5:])["keep"]
